@@ -63,6 +63,16 @@ def handleGw (g : GwDrv) : List String → GwDrv × String
         ({ g with st := st' }, s!"sent={listText (sent.map sentText)} fwd={listText (fwd.map fwdText)}")
       | _ => (g, "sent=- fwd=-")
     | _, _, _ => (g, "bad-args")
+  | ["gw.dgramfault", host, port, bytes, rx] =>
+    -- the registry lookup fails (storage error): the model's lookup yields nothing for any EUI
+    match nat? port, hx bytes, parseRxpks rx with
+    | some p, some bs, some rxpk =>
+      match unmarshal bs with
+      | .ok pkt =>
+        let (st', sent, fwd) := step g.checksOff (fun _ => none) g.st ⟨host, p, pkt, rxpk⟩
+        ({ g with st := st' }, s!"sent={listText (sent.map sentText)} fwd={listText (fwd.map fwdText)}")
+      | _ => (g, "sent=- fwd=-")
+    | _, _, _ => (g, "bad-args")
   | ["gw.down", e, host, clock, delay, ver, freq, datr, raw] =>
     match hx e, nat? clock, nat? delay, nat? ver, hx raw with
     | some eui, some c, some d, some v, some r =>
